@@ -6,7 +6,7 @@ V = '/verif'
 
 NOTE = ("Trusted base: Lean 4.33.0 kernel with axioms propext/Classical.choice/Quot.sound only (audited per theorem on every run; "
         "no sorry/admit/native_decide/bv_decide/own axioms); the hand-written Lean model lean/CorsVerif/Model tied to /repo by "
-        "Gen/Facts.lean (regenerated from the working tree by harness/extract), Gen/Pipeline.lean (the four decision steps of the preflight pipeline translated from middleware.go on every run and proved equal to the model's) and by the differential correspondence harness "
+        "Gen/Facts.lean (regenerated from the working tree by harness/extract), Gen/Pipeline.lean (translated from Go on every run by harness/extract/translate.go and proved equal to the model in Proofs/Translated.lean: the whole closure of Wrap with its three handlers and four pipeline steps, Reconfigure and SetDebug, validatePreflightStatus and validateMaxAge, and the loop bodies of validateOrigins / validateMethods / validateRequestHeaders / validateResponseHeaders) and by the differential correspondence harness "
         "(harness/inject, overlaid into /repo's module at build time); library behaviour modelled, not verified: x/net idna and "
         "publicsuffix and IPv6 netip (oracles answered by the real libraries per case), IPv4 netip, httpguts token table, "
         "net/http.Header, maps.Copy, errors.Join, sync.RWMutex, the Go memory model, range-over-func. ")
@@ -36,13 +36,13 @@ CLAIMS = {
             "nothing without an allowed origin; preflight-only and actual-only headers with exactly the configured values). "
             "Tie: strict comparison of whole responses on the serve suite incl. the malformed-request stream.",
             '6/C03', "'allowed origin' is read through the decision oracle (DESIGN 3d/8.1); its identification with pattern denotations is C01."),
-    'C04': ('proof', 'Lean 4 theorem (corollary of C05: validator errors = specification violations) + table-equality obligations over regenerated facts + differential tie',
+    'C04': ('proof', 'Lean 4 theorem (corollary of C05: validator errors = specification violations) + table-equality obligations over regenerated facts + differential tie + the loop bodies of the four list validators and the two loop-free validators of config.go translated from Go to Lean on every run and proved equal to the step functions of the model',
             "Theorems C04 / C04_nil / C04_clauses (Props/C04.lean): whenever validation accepts a Config, Spec.prohibitions (the documented prohibitions written field by field, with hand-written Fetch name "
             "tables proved to have the same members as the regenerated Go tables) is empty: at least one origin; `*` never with credentials or a PNA mode; insecure/psl patterns only under the tolerate flags; "
             "no invalid/forbidden method, no invalid/forbidden/prohibited header name, `*` response header never with credentials; max-age in [-1,86400]; status 0 or 200-299; at most one PNA mode; an error comes with a nil middleware. "
             "C04_caseMap_sites / C04_caseMap_consts_ascii / C04_valid_ascii: every call of a case-mapping function (strings.ToLower/ToUpper behind util.ByteLowercase/ByteUppercase, methods.Normalize, methods.IsForbidden), regenerated with the conditions that dominate it, sits behind the validity test or has an ASCII constant argument, and valid names are ASCII - the precondition under which the model's byte maps equal the Unicode-aware library functions. Tie: validate suite (accept/reject), names suite (exhaustive over 256 bytes and all table entries), lex suite (ParsePattern verdicts), histories (Reconfigure's verdict must not depend on the configuration in force).",
             '6/C04', "Relative to the oracles ext (idna for xn-- labels, publicsuffix, IPv6 netip) and to Pat.parsePattern as the syntactic verdict on one pattern (the grammar itself is C13's business)."),
-    'C05': ('proof', 'Lean 4 theorem: fold-with-accumulator validators = per-element specification (list equality, hence multiset equality) + differential tie',
+    'C05': ('proof', 'Lean 4 theorem: fold-with-accumulator validators = per-element specification (list equality, hence multiset equality) + differential tie + the loop bodies of the four list validators and the two loop-free validators of config.go translated from Go to Lean on every run and proved equal to the step functions of the model',
             "Theorems C05 / C05_accept / C05_reject / C05_value_verbatim / C05_bounds / C19_count (Props/C05.lean): for every Config and every oracle behaviour the leaves of the returned error are exactly "
             "Spec.prohibitions - same errors, same multiplicity, same order - so nothing is missed (no early exit) and nothing spurious is reported; a Config without violations is accepted; each error carries the "
             "value as supplied (forbidden methods are untouched by normalisation) and the documented bounds (regenerated constants proved equal to 204/200/299/5/86400/-1). Tie: validate suite compares the exact error tree "
@@ -93,7 +93,7 @@ CLAIMS = {
             "overwriting every cell it can reach cannot change singleton or configuration-owned cells that later calls read) and C12_history (a response depends on state, request and pre-set headers only). "
             "Tie: history and serve suites run with -adversarial (the harness overwrites every slice of the Config passed in, of every Config() result, and - inside the wrapped handler - of the request and response header maps) and are compared with the model.",
             '6/C12', 'PARTIAL w.r.t. Go aliasing: that the extractor classifies every Go expression correctly (v[:1] shares, []string{x} and Header.Add/Set allocate, slices.Clone/strings.Split/Elems allocate) is trusted and exercised by the adversarial harness, not proved.'),
-    'C13': ('proof', 'Lean 4 theorems (acceptance of the documented grammar: domain hosts outright, IPv4 outright, IPv6 and Punycode relative to the library oracles; self-match; form of every accepted pattern and rejection of the documented defects; documented constants and alphabets) + differential tie on grammar-directed strings with a grammar judge',
+    'C13': ('proof', 'Lean 4 theorems (acceptance of the documented grammar: domain hosts outright, IPv4 outright, IPv6 and Punycode relative to the library oracles; self-match; form of every accepted pattern and rejection of the documented defects; documented constants and alphabets) + differential tie on grammar-directed strings with a grammar judge + the loop body of validateOrigins translated from Go to Lean on every run and proved equal to the step function of the model',
             "Theorems C13_accept (every pattern of the documented form with a domain host - Spec/Grammar.lean, the grammar given generatively by parts: scheme, optional `*.`, LDH labels, optional trailing dot, optional port or `:*` - is accepted by the model of ParsePattern "
             "for every behaviour of the library oracles and parses to exactly its parts), C13_accept_ipv4 (dotted-quad hosts, loopback iff the first field is 127), C13_accept_idna (any lexical domain that passes the IDNA check of the model, i.e. Punycode hosts relative to profile.ToASCII), "
             "C13_accept_ipv6 (bracketed literals relative to netip.ParseAddr: zone-free, not IPv4-mapped, canonical text = the literal), C13_reject_ipv6_defects (conversely every accepted IPv6 pattern has these three properties), C13_self (an accepted pattern without `*.`/`:*`, presented verbatim as Origin within the length cap, is parsed by the request-side lexer into an origin the pattern denotes), "
@@ -109,7 +109,7 @@ CLAIMS = {
             "ones are allowed names in strictly increasing order. Corollaries: no unallowed name is ever approved; a browser's sorted unique list of allowed names is approved. "
             "Tie: acrh suite (headers.Check and TrimOWS directly, elements around the length cut-off, 0-3 OWS bytes, 15/16/17 empties, split lines) and the ACRH decision bit of the serve suite.",
             '6/C14', 'C14_browser_tolerated states completeness for every tolerated re-shaping (split lines, <=1 OWS byte per side, <=16 empties) of a sorted unique list.'),
-    'C15': ('proof', 'Lean 4 theorem (twins build the same handler function: canonical sorted sets + order-independence of the three set folds + C01 for the tree) + relational twins suite computed on the Go side',
+    'C15': ('proof', 'Lean 4 theorem (twins build the same handler function: canonical sorted sets + order-independence of the three set folds + C01 for the tree) + relational twins suite computed on the Go side + the loop bodies of the four list validators and the two loop-free validators of config.go translated from Go to Lean on every run and proved equal to the step functions of the model',
             "Theorem C15_full (Props/C15.lean): two accepted configurations whose lists mean the same sets (relation Twin, Proofs/Twins.lean: same origin patterns, same effective methods after normalisation, "
             "same effective header names after byte-lowercasing, `*` and Authorization listed in both or neither, equal scalars) satisfy Serve.serve i1 = Serve.serve i2 - the same function of debug flag, request and "
             "pre-existing header map. Twin.of_same_members / respell_requestHeaders / respell_responseHeaders / respell_methods / add_safelisted_method / symm / trans show that reordering, duplication, re-casing, method re-spelling "
@@ -135,7 +135,7 @@ CLAIMS = {
             "of the request path, loop callees within a fixed allow-list, preflight installs are sub-views or pre-built values. Measured conformance: the `allocs` suite measures testing.AllocsPerRun for 56 families at sizes 1 B .. 1 MiB / "
             "1 .. 100 000 elements and requires a count that does not grow and stays <= 8.",
             '6/C18', 'Whether Go allocates is decided by escape analysis and the runtime: not expressible in the model; the claim about the real code rests on the measurement.'),
-    'C19': ('proof', 'Lean 4 theorem by mutual structural induction over join trees + differential tie',
+    'C19': ('proof', 'Lean 4 theorem by mutual structural induction over join trees + differential tie + the loop body of validateOrigins translated from Go to Lean on every run and proved equal to the step function of the model',
             "Theorems C19 / C19_full / C19_break (Props/C19.lean): for every join tree and every consumer (hence every break position) "
             "the model of cfgerrors.All never yields after stop and yields exactly the accepted prefix of the leaves. The model is tied to "
             "cfgerrors.All by running real errors.Join trees x all break positions through both.",
